@@ -17,9 +17,17 @@ def targs(f):
 def atomic_ops(body, pid):
     """(op name, node) for every use of the atomic parameter pid"""
     out = []
+    seen_at = set()
     for x in walk(body):
         if x.get('kind') == 'DeclRefExpr' and (x.get('referencedDecl') or {}).get('id') == pid:
             p = x.get('_p')
+            if p is not None and p.get('kind') == 'LambdaExpr':
+                continue      # a by-reference capture: the uses inside the lambda body are what counts
+            # the dump shows a lambda body twice (closure operator() and the expression's own copy)
+            at = (x.get('_off'), x.get('_line'), x.get('_col'))
+            if at in seen_at and enclosing(x, ('LambdaExpr',)) is not None:
+                continue
+            seen_at.add(at)
             while p is not None and p.get('kind') in TRANSPARENT | {'ImplicitCastExpr'}:
                 p = p.get('_p')
             if p is None:
@@ -81,6 +89,14 @@ def check_worker(ctx, u, f, lab, blocked):
         ctx.check((ref_decl(val) or {}).get('id') == end['id'], R1, lab + '|cursor-store#%d' % i, s, 'the only plain store moves the cursor to end_value', 'the cursor is overwritten with %s: it can move below a value already issued (duplicates) or skip work' % nf(val))
     # callback invocations
     calls = [c for c in walk(body) if c.get('kind') == 'CXXOperatorCallExpr' and len(c['inner']) > 1 and (ref_decl(c['inner'][1]) or {}).get('id') == fnp['id']]
+    # (a lambda body appears twice in the dump: closure operator() and the expression's own copy)
+    uniq = {}
+    for c in calls:
+        uniq.setdefault((c.get('_off'), c.get('_line'), c.get('_col')), c)
+    calls = list(uniq.values())
+    if calls and all(enclosing(c, ('LambdaExpr',)) is not None for c in calls):
+        ctx.undecided(R1, lab + '|callback-site', calls[0], 'the callback is invoked inside a local lambda that receives the claimed value as a parameter: the claimed-value discipline is not decided by this rule')
+        return
     if not calls and any((ref_decl(a_) or {}).get('id') == fnp['id'] for c_ in walk(body) if c_.get('kind') == 'CallExpr' for a_ in call_args(c_)):
         ctx.undecided(R1, lab + '|callback-site', f, 'the callback is handed to a helper function and invoked there: the claimed-value discipline is not decided by this rule')
         return
@@ -172,6 +188,18 @@ def check_driver(ctx, u, f, lab, worker_name):
                     mk = [lp_]
     ctx.check(ok, R, lab + '|thread-creation', mk[0] if mk else f, 'num_threads workers, each given thread_num = threads.size() at creation (so 0..num_threads-1) and the shared atomics by reference', 'thread creation changed (thread numbers are no longer 0..num_threads-1, or the atomics are copied)')
     joins = [s for s in stmts_of(body) if s.get('kind') == 'CXXForRangeStmt' and any(canon(x) == 'threads' for x in walk(s) if x.get('kind') == 'DeclRefExpr') and any(c.get('kind') == 'CXXMemberCallExpr' and call_name(c) == 'join' for c in walk(s))]
+    if not joins:
+        # index form: for (z = 0; z < threads.size(); z++) threads[z].join();  (no early exit from the loop)
+        for s_ in stmts_of(body):
+            if s_.get('kind') == 'ForStmt':
+                i_, cv2, cd_, in_, lb2 = for_parts(s_)
+                zd2 = next((v for v in walk(i_) if v.get('kind') == 'VarDecl'), None) if i_ else None
+                jn = [c for c in walk(lb2) if c.get('kind') == 'CXXMemberCallExpr' and call_name(c) == 'join']
+                full_ = zd2 is not None and kids(zd2) and int_value(kids(zd2)[-1]) == 0 and cd_ is not None and cd_.get('kind') and nf(cd_) in ('(%s < threads.size())' % zd2['name'], '(threads.size() > %s)' % zd2['name'], '(%s != threads.size())' % zd2['name']) and \
+                    in_ is not None and nf(in_) in ('(%s++)' % zd2['name'], '(++%s)' % zd2['name'], '++%s' % zd2['name'])
+                on_elem = len(jn) == 1 and nf(member_call_object(jn[0])) in ('threads[%s]' % (zd2 or {}).get('name'), 'threads.at(%s)' % (zd2 or {}).get('name'))
+                if full_ and on_elem and not any(x_.get('kind') in ('ReturnStmt', 'BreakStmt', 'ContinueStmt', 'CXXThrowExpr') for x_ in walk(lb2)):
+                    joins = [s_]
     if not joins:
         # a helper that joins every element of the vector it is given
         for s_ in stmts_of(body):
